@@ -39,6 +39,11 @@ type step struct {
 	At      int    `json:"at,omitempty"`
 	Corrupt string `json:"corrupt,omitempty"` // truncate | flip | empty | garbage
 	Why     string `json:"why,omitempty"`     // how At was constructed
+	// Survive (stream and store steps): how the entry a failed Store leaves
+	// behind escapes the reconciler's cleanup: "" (it does not) | remove-fails
+	// (deleting the cache file fails, which the reconciler only logs) | crash
+	// (the process dies when it is about to delete the file).
+	Survive string `json:"survive,omitempty"`
 }
 
 // scenario is one generated case of the install check.
@@ -148,7 +153,9 @@ func genSteps(t *rapid.T, s stream, bi builtImage, opens, gz int) []step {
 				y, why := genCut(t, s)
 				st.At, st.Why = bi.streamOff+y, why
 			}
+			st.Survive = rapid.SampledFrom([]string{"", "", "", "remove-fails", "remove-fails", "crash"}).Draw(t, "survive")
 		case "store":
+			st.Survive = rapid.SampledFrom([]string{"", "", "", "remove-fails", "crash"}).Draw(t, "survive")
 			if rapid.Bool().Draw(t, "storeConstructed") {
 				st.At = clamp(rapid.SampledFrom([]int{0, 1, 5, 9, 10, 11, gz / 2, gz - 9, gz - 8, gz - 1, gz}).Draw(t, "storeAt"), 0, gz)
 			} else {
@@ -261,15 +268,22 @@ func runScenario(sc scenario, s stream, bi builtImage, rec *verifkit.Recorder) (
 		return ""
 	}
 
+	// deferred holds a cache-level finding; what later reconciles establish from
+	// such an entry (a subset of the package) is judged, and reported, first.
+	deferred := ""
 	for i, st := range sc.Steps {
-		where := fmt.Sprintf("step %d (%s %s at=%d)", i, st.Kind, st.Corrupt, st.At)
+		where := fmt.Sprintf("step %d (%s %s%s at=%d %s)", i, st.Kind, st.Corrupt, st.Survive, st.At, st.Why)
 		e.fs.set(noFsFault())
 		switch st.Kind {
 		case "stream":
 			e.fetcher.plan[source] = streamPlan{FailOpen: st.Open, At: st.At}
+			p := noFsFault()
+			p.RemoveFails, p.RemoveCrashes = st.Survive == "remove-fails", st.Survive == "crash"
+			e.fs.set(p)
 		case "store":
 			p := noFsFault()
 			p.WriteFailAt = st.At
+			p.RemoveFails, p.RemoveCrashes = st.Survive == "remove-fails", st.Survive == "crash"
 			e.fs.set(p)
 		case "create":
 			p := noFsFault()
@@ -299,7 +313,9 @@ func runScenario(sc scenario, s stream, bi builtImage, rec *verifkit.Recorder) (
 				at := clamp(st.At, 0, len(nb))
 				switch st.Corrupt {
 				case "truncate":
-					nb = nb[:clamp(at, 0, len(nb)-1)]
+					if len(nb) > 0 { // a surviving entry may be empty already
+						nb = nb[:clamp(at, 0, len(nb)-1)]
+					}
 				case "flip":
 					if len(nb) > 0 {
 						nb[clamp(at, 0, len(nb)-1)] ^= 0x41
@@ -317,14 +333,45 @@ func runScenario(sc scenario, s stream, bi builtImage, rec *verifkit.Recorder) (
 				rec.Label("corrupt:no-entry")
 			}
 		}
+		e.rcache.take()
 		_, rerr, p := e.reconcile(sc.Type, sc.RevName)
 		_ = rerr
 		e.fs.set(noFsFault())
 		delete(e.fetcher.plan, source)
+		if p == errCrash {
+			// the process died where it was about to delete the cache file; the
+			// next reconcile is the restarted package manager's
+			rec.Label("crashed-before-cache-delete")
+			p = nil
+		}
 		if p != nil {
 			return fmt.Sprintf("%s: reconcile panicked: %v", where, p), cr
 		}
 		calls := e.est.take()
+		// Cache level: after a Store that returned an error, whatever is left
+		// under that key must not read back cleanly (to EOF, no error) as
+		// something else than the image's stream - a later reconcile could not
+		// tell it from a complete entry.
+		for _, sr := range e.rcache.take() {
+			if sr.Err == nil || sr.ID != sc.RevName {
+				continue
+			}
+			rec.Label("store-returned-error")
+			b := cacheEntry(e.fs.Fs, sc.RevName)
+			if b == nil {
+				continue
+			}
+			rec.Label("store-returned-error:entry-survived")
+			boundary := st.Kind == "stream" && strings.HasPrefix(st.Why, "doc") && strings.HasSuffix(st.Why, "+0")
+			if boundary {
+				rec.Label("class:source-cut-at-doc-boundary+entry-survived")
+			}
+			if plain, err := gunzip(b); err == nil && !bytes.Equal(plain, s.Bytes) {
+				if deferred == "" {
+					deferred = fmt.Sprintf("%s: Store returned an error (%v) but left an entry that reads back cleanly as %d of the stream's %d bytes: a WELL-FORMED entry holding different content than the image (survived because: %s)", where, sr.Err, len(plain), len(s.Bytes), st.Survive)
+				}
+			}
+		}
 		if st.Kind == "corrupt" && st.Corrupt == "flip" {
 			// a flipped byte in a field gzip does not protect (header mtime/xfl/os)
 			// leaves the content intact; nothing to say beyond the generic checks.
@@ -351,10 +398,18 @@ func runScenario(sc scenario, s stream, bi builtImage, rec *verifkit.Recorder) (
 	// stays unhealthy until the entry is removed by hand. Nothing is installed
 	// from it (gzip detects the damage), so this is a liveness gap the property
 	// text does not speak about; it is counted as "stuck-on-unparsable-entry".
-	damagedBefore := false
+	//
+	// Likewise when the reconciler's cleanup of a failed Store could not happen
+	// (deleting the cache file failed, or the process crashed before it): the
+	// partial entry stays, reads back as an error, nothing is installed from
+	// it, and the revision stays unhealthy ("stuck-on-surviving-partial-entry").
+	damagedBefore, survived := false, false
 	for _, st := range sc.Steps {
 		if st.Kind == "corrupt" {
 			damagedBefore = true
+		}
+		if st.Survive != "" {
+			survived = true
 		}
 	}
 	for i := 0; i < 3; i++ {
@@ -368,16 +423,18 @@ func runScenario(sc scenario, s stream, bi builtImage, rec *verifkit.Recorder) (
 			return v, cr
 		}
 		if verdict == mustInstall && i >= 1 && len(calls) != 1 {
-			if damagedBefore {
-				if i == 2 {
+			if damagedBefore || survived {
+				if i == 2 && damagedBefore {
 					rec.Label("stuck-on-unparsable-entry")
+				} else if i == 2 {
+					rec.Label("stuck-on-surviving-partial-entry")
 				}
 				continue
 			}
 			return fmt.Sprintf("%s: NOT INSTALLED AFTER A FAILED CACHE WRITE: registry and cache device are healthy again, a cold reconcile would install the package, but after the failed/partial cache write it is not installed (err=%v, cache entry present=%v)", where, err, cacheEntry(e.fs.Fs, sc.RevName) != nil), cr
 		}
 	}
-	return "", cr
+	return deferred, cr
 }
 
 func brief(l []string) string {
@@ -471,7 +528,10 @@ func TestVerifC15Install(t *testing.T) {
 			if st.Kind != "healthy" {
 				faulty = true
 			}
-			ks = append(ks, st.Kind+":"+st.Corrupt+":"+st.Why)
+			ks = append(ks, st.Kind+":"+st.Corrupt+":"+st.Why+":"+st.Survive)
+			if st.Survive != "" {
+				rec.Label("survive:" + st.Survive)
+			}
 		}
 		if sc.Neighbour != "" {
 			rec.Label("neighbour")
@@ -538,6 +598,14 @@ func TestVerifC15Pinned(t *testing.T) {
 			docs: []doc{{Kind: "meta:Provider", Name: "pkg", MetaAPI: "v1"}, {Kind: "crd", Name: "o0", Pad: 3300}, {Kind: "crd", Name: "o1"}, {Kind: "crd", Name: "o2"}}},
 		{name: "store-fails-before-last-chunk-hides-unknown-kind", steps: []step{{Kind: "store", At: 0}}, want: "mustNot",
 			docs: []doc{{Kind: "meta:Provider", Name: "pkg", MetaAPI: "v1"}, {Kind: "crd", Name: "o0", Pad: 3300}, {Kind: "crd", Name: "o1"}, {Kind: "unknown", Name: "cm"}}},
+		// C15-d class: the image stream breaks on a document boundary during the
+		// first pull AND the partial entry escapes the cleanup (the delete fails,
+		// or the process crashes before it). Whatever Store left must not read
+		// back as a complete entry: later reconciles fail or install everything.
+		{name: "stream-cut-at-doc-boundary-delete-fails", steps: []step{{Kind: "stream", Open: -1, At: -2, Why: "doc2+0", Survive: "remove-fails"}}},
+		{name: "stream-cut-at-doc-boundary-crash-before-delete", steps: []step{{Kind: "stream", Open: -1, At: -2, Why: "doc2+0", Survive: "crash"}}},
+		{name: "stream-cut-at-line-boundary-delete-fails", steps: []step{{Kind: "stream", Open: -1, At: -4, Survive: "remove-fails"}}},
+		{name: "store-fails-midway-delete-fails", steps: []step{{Kind: "store", At: 40, Survive: "remove-fails"}}},
 		{name: "store-fails-midway", steps: []step{{Kind: "store", At: 40}}},
 		// an entry already damaged in the cache: nothing may be installed from it;
 		// that the revision then stays unhealthy (the unparsable entry is kept) is
